@@ -273,6 +273,10 @@ def file_scenario(draw, fmt="xml", max_lanelets=5, max_obstacles=4, max_pps=2, m
         prof.update(extra_profile)
     ids = gs.Ids(draw(gs.id_pool(120, 900)))
     sid = draw(st.one_of(st.none(), gs.scenario_id_recipe()))
+    if sid is not None and draw(st.booleans()):
+        # half of the named scenarios lie in a country with its own traffic-sign catalogue (several catalogues share
+        # id texts such as "R1-1", and one process reads files of many countries)
+        sid = dict(sid, country_id=draw(st.sampled_from(sorted(c.value for c in SupportedTrafficSignCountry))))
     country = "ZAM" if sid is None else sid["country_id"]
     ckey, enum_cls = sign_enum_for_country(country)
     if fmt == "pb":
